@@ -149,8 +149,11 @@ CLAIMS = {
    text="Partial proof (Lean 4) about the model of _target_utility / _assign_utility / _maximise_utility_duty (tied to the code on "
         "1500 synthetic load profiles x utility ladders per run, all duties compared): duties_nonneg_and_bounded (for every "
         "segment, ladder and side the duties are >= 0 and never sum to more than the profile maximum, by induction over the "
-        "ladder), unreachable_gets_zero (a utility whose supply lies beyond every row of its segment gets nothing). The closure "
-        "clause (duties sum to Qh / Qc; defaults added when needed) is NOT a theorem: it is false of the code in one recorded way "
+        "ladder), unreachable_gets_zero (a utility whose supply lies beyond every row of its segment gets nothing), "
+        "covering_ladder_closes_hot (heating side: for every non-increasing load profile and every ladder that ENDS with a utility "
+        "whose supply and target levels are at least as hot as every row - what the default hot utility is - the duties add up "
+        "to Qh within tol: a covering utility takes exactly what is left, by induction over the ladder). The unconditional closure "
+        "clause (duties always sum to Qh / Qc; defaults added when needed; cooling side) is NOT a theorem: it is false of the code in one recorded way "
         "(known finding C03-cold-sufficiency-sign, pinned by 6 e2e workbooks) and is decided by the oracle on every zone of 300+ "
         "random problems x utility sets per run (defaults only, ladders inside/outside the range, too-warm cold / too-cold hot "
         "utilities), which also checks the per-utility total-process sums and reachability.",
@@ -185,8 +188,12 @@ CLAIMS = {
         "flatten range, i += n_added*sgn, Python loop bound as fuel) and of get_seperated_gcc_heat_load_profiles: gcc_unchanged — "
         "for every curve, whatever its pockets, if pocket removal returns then H_net (any interpolated column but H_net_np) is the "
         "same polyline at every rational temperature (induction over the sweep's fuel, through C08.curves_preserved at every "
-        "inserted closing temperature); profiles_monotone, profiles_ends. NOT proved: that H_net_np equals the running minimum of "
-        "the GCC and that breakpoints appear exactly at pocket closings — these clauses are decided by an exact Fraction oracle "
+        "inserted closing temperature); profiles_monotone, profiles_ends. Specification layer: npSpec (running minima read towards "
+        "the pinch, zero between the pinches) with runMin_under_and_monotone and runMin_greatest (the running minimum is "
+        "non-increasing, under the column, and the GREATEST such column, for columns of any length); the refinement "
+        "code-shaped model = npSpec is NOT proved: the driver evaluates both layers on every case and every tolerance-clean case "
+        "(1497 of 1502 in a quick run) must agree exactly. That H_net_np of the IMPLEMENTATION equals the running minimum of "
+        "the GCC and that breakpoints appear exactly at pocket closings is decided by an exact Fraction oracle "
         "applied to the implementation's output at every row and interval midpoint of 1500+ random curves per run (0-6 pockets per "
         "side, nested, closing on a row, adjacent to the pinch, threshold, two pinches) and by the correspondence on T/H/H_np and "
         "both profiles (1500/1500 agree).",
